@@ -270,7 +270,36 @@ def r4_literals_and_argument_attributes(ctx, rep):
            "`intent(in) :: n`, `optional :: flag`, `dimension a(n,2)` written as statements are not displayed", py.nloc(fp))
 
 
+def r5_selector_regexes(ctx, rep):
+    """kind/len selectors are displayed from what KIND_RE / LEN_RE capture: the capture must span the whole
+    selector expression (E2), otherwise `character(len=n+1)` is shown as `len=n`."""
+    py, rx = ctx.py, ctx.rx
+    EXPR = r"[a-z0-9_]+(?:[-+*/][a-z0-9_]+)*"     # blank-free expression without commas/parentheses
+    for name, kw in (("sourceform.LEN_RE", "len"), ("sourceform.KIND_RE", "kind")):
+        pat, flags, node, _ = ctx.regexes[name]
+        # the selector text handed to the regex has blanks removed (parse_type: re.sub(r"\s", "", args))
+        ref = rx.full(rf"{kw}={EXPR}", re.IGNORECASE)
+        consumed = rx.prefix_lang(pat, flags)          # strings the match can consume entirely
+        w = rx.subset_witness(ref, consumed)
+        rep.ob(f"{name} consumes the whole `{kw}=expr` selector", w is None,
+               "the captured value is the complete expression" if w is None else
+               f"for `{w}` the regex stops before the end of the selector: the displayed {kw} is a prefix of the declared "
+               f"expression", py.nloc(node), witness=w)
+    # positional selectors: if the regex matches at all it must match the whole expression
+    pat, flags, node, _ = ctx.regexes["sourceform.LEN_RE"]
+    pos = rx.conj(rx.full(EXPR, re.IGNORECASE), rx.neg(rx.match_lang(r"len\s*=", re.IGNORECASE)))
+    w = rx.witness(rx.conj(pos, rx.match_lang(pat, flags), rx.neg(rx.prefix_lang(pat, flags))))
+    rep.ob("sourceform.LEN_RE: a positional length expression is taken whole or not at all", w is None,
+           "a matching positional selector is consumed completely (others fall through to `length = arg`)" if w is None else
+           f"for the positional selector `{w}` the regex matches only a prefix: `character({w})` is displayed with a "
+           f"truncated length", py.nloc(node), witness=w)
+    pt = py.func("sourceform.parse_type")
+    ok = "args = re.sub('\\\\s', '', args)" in ast.unparse(pt)
+    rep.ob("parse_type removes blanks from the selector before matching", ok, "", py.nloc(pt), nontrivial=False)
+
+
 RULES = [
+    RuleSpec("C18.R5", r5_selector_regexes, "kind/len selector regexes capture the whole expression", floor=3),
     RuleSpec("C18.R4", r4_literals_and_argument_attributes, "literal case is preserved; argument attributes are complete", floor=5),
     RuleSpec("C18.R1a", r1_sources, "literal re-insertion sites are the tracked sources; no autoescape", floor=4),
     RuleSpec("C18.R1", r1_sinks, "literal-bearing text is escaped at every template sink", floor=8),
